@@ -266,6 +266,98 @@ def gen_lp(r, nmax):
 # configurations
 # --------------------------------------------------------------------------------------
 
+F = Fraction
+
+
+def gen_singleton_equations(r, count):
+    """an equation a0 x0 + a1 x1 (+ a2 x2) = b in which x0 is a column singleton with a cost and ONE or two finite bounds, x2 (if
+    present) is a fixed variable, and x1 occurs in a second, loose row: the 'column singleton combined with a doubleton equation'
+    reduction of simplifyCols (the singleton's bounds are moved onto its partner and the singleton becomes free), reached
+    directly or after the fixed variable has been removed.  Systematic over: signs of a0 and a1 x bound type of the singleton
+    (lower only / upper only / boxed) x sign of its cost x third (fixed) entry absent / before / after x partner free / boxed x
+    min / max; magnitudes and the column order random."""
+    combos = [(s0, s1, bt, cs, third, box1, mx, row2)
+              for s0 in (1, -1) for s1 in (1, -1) for bt in ("lo", "up", "box") for cs in (1, -1)
+              for third in ("none", "before", "after") for box1 in (False, True) for mx in (False, True) for row2 in (True, False)]
+    r.shuffle(combos)
+    # the sub-grid in which the singleton's bounds are all that bounds the LP (free partner, no second row, a fixed third entry)
+    # comes first and is always complete: there a lost or misplaced bound changes the verdict, not just the vertex
+    core = [c for c in combos if c[4] != "none" and not c[5] and not c[7]]
+    combos = core + [c for c in combos if c not in core]
+    out = []
+    for (s0, s1, bt, cs, third, box1, mx, row2) in combos[:max(count, len(core) + count // 4)]:
+        a0 = F(s0 * r.choice([1, 1, 2, 3]))
+        a1 = F(s1 * r.choice([1, 2, 3]))
+        l0 = F(r.randint(-3, 2))
+        u0 = l0 + r.randint(1, 6)
+        c0 = (F(cs * r.randint(1, 3)), l0 if bt in ("lo", "box") else None, u0 if bt in ("up", "box") else None)
+        c1 = (F(r.randint(-2, 2)), F(-r.randint(2, 6)) if box1 else None, F(r.randint(2, 8)) if box1 else None)
+        v = F(r.randint(-2, 3))
+        c2 = (F(r.randint(-1, 1)), v, v)
+        c3 = (F(r.randint(-1, 1)), F(0), F(r.randint(1, 4)))
+        names = {"s": c0, "p": c1, "x": c3}
+        order = ["s", "p", "x"]
+        r.shuffle(order)
+        if third == "before":
+            order.insert(0, "f")
+        elif third == "after":
+            order.append("f")
+        names["f"] = c2
+        pos = {nm: k for k, nm in enumerate(order)}
+        co = {pos["s"]: a0, pos["p"]: a1}
+        if third != "none":
+            co[pos["f"]] = F(r.choice([-2, -1, 1, 2]))
+        b = F(r.randint(-4, 6))
+        rows = [(b, co, b)]
+        if row2:
+            rows.append((F(-r.randint(6, 12)), {pos["p"]: F(1), pos["x"]: F(r.choice([-1, 1]))}, F(r.randint(6, 12))))
+        out.append(LP(mx, 0, [names[nm] for nm in order], rows, "singleton-equation"))
+    return out
+
+
+def gen_forcing_rows(r, count):
+    """a forcing row: its minimal (or maximal) activity over the column bounds equals its right-hand (left-hand) side exactly, so every
+    column of the row is forced to a bound, while the costs pull two or three of them AWAY from that bound with different ratios
+    |reduced cost / coefficient|: undoing the row must give it the dual multiplier of the LARGEST ratio and make exactly that column
+    basic.  Systematic over: forced side (rhs / lhs) x signs of the coefficients x number of columns (2, 3) x which column has the
+    largest ratio x min / max x alone / attached to a second row; magnitudes random with pairwise different ratios."""
+    combos = [(side, sg, nv, big, mx, attach)
+              for side in ("rhs", "lhs") for sg in range(8) for nv in (2, 3) for big in range(3) for mx in (False, True)
+              for attach in (False, True) if big < nv]
+    r.shuffle(combos)
+    out = []
+    for (side, sg, nv, big, mx, attach) in combos[:count]:
+        mags = r.sample([1, 2, 3, 4, 5], nv)
+        ratios = r.sample([1, 2, 3, 5, 7], nv)
+        ratios.sort()
+        # column `big` gets the largest ratio
+        top = ratios.pop()
+        r.shuffle(ratios)
+        ratios.insert(big, top)
+        cols, co, bound_act = [], {}, F(0)
+        for j in range(nv):
+            a = F(mags[j] * (1 if (sg >> j) & 1 else -1))
+            co[j] = a
+            at_lower = (a > 0) == (side == "rhs")         # the forced bound of column j
+            v = F(r.randint(-2, 2))
+            lo, up = (v, (v + r.randint(1, 4) if r.random() < 0.5 else None)) if at_lower else ((v - r.randint(1, 4) if r.random() < 0.5 else None), v)
+            # cost pulling away from the forced bound (in the sense of minimisation: negative at a lower bound), |cost| = ratio * |a|
+            c = F(ratios[j] * mags[j]) * (-1 if at_lower else 1)
+            if r.random() < 0.2 and j != big:
+                c = -c                                     # this one is happy at its bound
+            cols.append((-c if mx else c, lo, up))
+            bound_act += a * v
+        row = (None, co, bound_act) if side == "rhs" else (bound_act, co, None)
+        if r.random() < 0.3:
+            row = (bound_act - r.randint(1, 3), co, bound_act) if side == "rhs" else (bound_act, co, bound_act + r.randint(1, 3))
+        rows = [row]
+        if attach:
+            cols.append((F(r.randint(-2, 2)), F(0), F(r.randint(1, 5))))
+            rows.append((F(-20), {r.randrange(nv): F(r.choice([-1, 1])), nv: F(1)}, F(20)))
+        out.append(LP(mx, 0, cols, rows, "forcing-row"))
+    return out
+
+
 ALGO_SPACE = {
     "representation": [0, 1, 2], "algorithm": [0, 1], "factor_update_type": [0, 1], "simplifier": [0, 1, 3],
     "scaler": [0, 1, 2, 3, 4, 5, 6], "starter": [0, 1, 2, 3], "pricer": [0, 1, 2, 3, 4, 5], "ratiotester": [0, 1, 2, 3],
